@@ -185,6 +185,13 @@ def directed_families(ctx):
            ('@namespace "d"; b:not(|a){l:0}', [('d', 'b'), ('', 'a')]),
            ('@namespace p "u"; @media tv{p|b:not(p|a) > c:not(p|*){l:0}}', [('u', 'b'), ('u', 'a'), (None, 'c'), ('u', '*')]),
            ('@namespace p "u"; @namespace q "v"; q|x:not(p|a), y:not(q|z){l:0}', [('v', 'x'), ('u', 'a'), (None, 'y'), ('v', 'z')])]
+    # prefixes are names: kept as written (case matters), and an escaped spelling is the same prefix
+    NEG += [('@namespace Svg "u"; Svg|rect, b{l:0}', [('u', 'rect'), (None, 'b')]),
+            ('@namespace SVG "u"; @namespace svg "v"; SVG|a, svg|b{l:0}', [('u', 'a'), ('v', 'b')]),
+            ('@namespace xLink "u"; c:not(xLink|a){l:0}', [(None, 'c'), ('u', 'a')]),
+            ('@namespace "d"; @namespace Q "v"; Q|x > y{l:0}', [('v', 'x'), ('d', 'y')]),
+            ('@namespace s\\76 g "u"; svg|a, sv\\67 |b{l:0}', [('u', 'a'), ('u', 'b')]),
+            ('@namespace Pq "u"; @media tv{Pq|a{l:0}} Pq|*{l:0}', [('u', 'a'), ('u', '*')])]
     for text, want in NEG:
         for variant in (text, text.upper().replace('"U"', '"u"').replace('"V"', '"v"').replace('"D"', '"d"') if False else text.replace('{', ' {\n').replace(':not(', ':NOT(')):
             case = {'text': variant, 'family': 'namespaced-negation'}
